@@ -334,3 +334,42 @@ fn c01_mapping_member_offsets_at_the_boundaries() {
     } }
     println!("CASES c01_mapping_offsets {cases}");
 }
+
+/// storage keys that are hashes of CONSTANT memory (1 to 4 words): the word values an ABI-encoded string starts with (0x20,
+/// a small length, printable bytes), slot numbers, boundary constants — used as they are, plus a constant, plus call data;
+/// the proxy-slot and hashed-slot recognisers index into these word lists
+#[test]
+fn c01_keys_hashed_from_constant_words() {
+    use std::io::Write;
+    std::panic::set_hook(Box::new(|_| {}));
+    let ascii = |s: &str| { let mut b = [0u8; 32]; b[..s.len()].copy_from_slice(s.as_bytes()); ethnum::U256::from_be_bytes(b) };
+    let words = [ethnum::U256::new(0x20), ethnum::U256::new(0x40), ethnum::U256::ZERO, ethnum::U256::ONE, ethnum::U256::new(5), ethnum::U256::new(31), ethnum::U256::new(33),
+        ascii("hello"), ascii("eip1967.proxy.implementation"), ascii("AAAAAAAAAAAAAAAAAAAAAAAAAAAAAAAA"), ethnum::U256::MAX, ethnum::U256::ONE << 255u32, ethnum::U256::new(1 << 64)];
+    let mut rng = Rng::seeded(4242);
+    let mut progs: Vec<Vec<u8>> = vec![];
+    let mut lists: Vec<Vec<ethnum::U256>> = vec![];
+    for w in &words { lists.push(vec![*w]); }
+    for a in &words[..6] { for b in &words[..8] { lists.push(vec![*a, *b]); } }
+    for _ in 0..30 { let n = 3 + rng.below(2) as usize; lists.push((0..n).map(|_| words[rng.below(words.len() as u64) as usize]).collect()); }
+    for l in &lists {
+        for (k, tail) in [vec![0x54u8, 0x50], vec![0x60, 0x00, 0x35, 0x90, 0x55], vec![0x60, 0x01, 0x01, 0x54, 0x50], vec![0x60, 0x00, 0x35, 0x01, 0x33, 0x90, 0x55]].iter().enumerate() {
+            if l.len() > 2 && k % 2 == 1 { continue; }
+            let mut c = vec![];
+            for (i, w) in l.iter().enumerate() { c.extend(push32(*w)); c.extend([0x60, (32 * i) as u8, 0x52]); }
+            // size: all the words, and one byte less / more for single words
+            c.extend([0x60, (32 * l.len()) as u8, 0x60, 0x00, 0x20]);
+            c.extend(tail);
+            c.push(0x00);
+            progs.push(c);
+        }
+    }
+    let n = progs.len();
+    for code in progs {
+        println!("RUNNING c01_hashed_constant_keys {code:02x?}");
+        std::io::stdout().flush().ok();
+        if let Out::Panic = analyze(&code, true) {
+            witness("C01", "analyze.panic.keys_hashed_from_constant_words", format!("{code:02x?}"), "PANIC".into(), "layout or error".into());
+        }
+    }
+    println!("CASES c01_hashed_constant_keys {n}");
+}
